@@ -99,6 +99,14 @@ func hangAfterCap(base time.Duration, capFactor int) <-chan struct{} {
 // hangCtx: a context cancelled when the work started now is considered hung.
 func hangCtx(base time.Duration) (context.Context, context.CancelFunc) {
 	ctx, cancel := context.WithCancel(context.Background())
-	stop := onHang(base, hangCap, cancel)
+	stop := onHang(base, hangCap, func() { noteHang(); cancel() })
 	return ctx, func() { stop(); cancel() }
 }
+
+// Every watchdog that actually ends a unit of work calls noteHang. safeExec (core.go) re-executes a case during which a
+// watchdog fired: cases are deterministic, so a real hang fires again, while a stall of the whole process (memory
+// reclaim, a starved scheduler) does not repeat. Only a case whose watchdog fires on every attempt is reported.
+var hangsNoted, hangRetries, hangRetriesCleared int64
+
+func noteHang() { atomic.AddInt64(&hangsNoted, 1) }
+
